@@ -3744,7 +3744,8 @@ def sptenrand(
     shape = parse_shape(shape)
     if isinstance(density, float):
         # TODO this should be an int
-        valid_nonzeros = float(prod(shape) * density)
+        # At least one nonzero: a count below 1 would be read as a density again
+        valid_nonzeros = max(float(prod(shape) * density), 1.0)
     elif isinstance(nonzeros, (int, float)):
         valid_nonzeros = nonzeros
     else:  # pragma: no cover
